@@ -1102,7 +1102,14 @@ func (p *Parser) evaluateVarDefinition(ctx context) (Statement, error) {
 		if global {
 			storedName = buildPrefixedName(prefix, name)
 		}
-		variables = append(variables, NewVariable(storedName, specifiedType, global, isPublic(name)))
+		variableType := specifiedType
+
+		// A short multi-definition assigns to the names which already exist in the same scope level: such a variable
+		// keeps its type and the value must fit it.
+		if exists && variable.Global() == global && specifiedType.DataType() == DATA_TYPE_UNKNOWN {
+			variableType = variableValueType
+		}
+		variables = append(variables, NewVariable(storedName, variableType, global, isPublic(name)))
 	}
 	values := []Expression{}
 
